@@ -285,7 +285,6 @@ type stub struct {
 	started    bool
 	doneC      chan struct{}
 	srvErrC    chan error
-	cfgErrC    chan error
 	syncReq    *api.SynchronizeRequest
 
 	registrationTimeout time.Duration
@@ -391,7 +390,8 @@ func (stub *stub) Start(ctx context.Context) (retErr error) {
 		}
 	}()
 
-	api.RegisterPluginService(rpcs, stub)
+	cfgErrC := make(chan error, 1)
+	api.RegisterPluginService(rpcs, &pluginService{stub: stub, cfgErrC: cfgErrC})
 
 	conn, err := rpcm.Open(multiplex.RuntimeServiceConn)
 	if err != nil {
@@ -415,7 +415,6 @@ func (stub *stub) Start(ctx context.Context) (retErr error) {
 	}()
 
 	stub.srvErrC = make(chan error, 1)
-	stub.cfgErrC = make(chan error, 1)
 
 	go func(l stdnet.Listener, doneC chan struct{}, srvErrC chan error) {
 		srvErrC <- rpcs.Serve(ctx, l)
@@ -439,7 +438,7 @@ func (stub *stub) Start(ctx context.Context) (retErr error) {
 
 	verifhook.Point("stub.start.waitcfg")
 	select {
-	case err = <-stub.cfgErrC:
+	case err = <-cfgErrC:
 	case <-closedC:
 		err = errors.New("connection to NRI/Runtime closed before the plugin got configured")
 	case <-timeout.C:
@@ -631,6 +630,21 @@ func (stub *stub) UpdateContainers(update []*api.ContainerUpdate) ([]*api.Contai
 	return nil, err
 }
 
+// pluginService is the plugin service of a single connection. It hands the
+// result of Configure to the Start() which set up that connection, never to
+// a later one.
+type pluginService struct {
+	*stub
+	cfgErrC chan error
+}
+
+// Configure the plugin and let the Start() of this connection know the result.
+func (s *pluginService) Configure(ctx context.Context, req *api.ConfigureRequest) (*api.ConfigureResponse, error) {
+	rpl, err := s.stub.Configure(ctx, req)
+	s.cfgErrC <- err
+	return rpl, err
+}
+
 // Configure the plugin.
 func (stub *stub) Configure(ctx context.Context, req *api.ConfigureRequest) (rpl *api.ConfigureResponse, retErr error) {
 	var (
@@ -643,10 +657,6 @@ func (stub *stub) Configure(ctx context.Context, req *api.ConfigureRequest) (rpl
 
 	stub.registrationTimeout = time.Duration(req.RegistrationTimeout * int64(time.Millisecond))
 	stub.requestTimeout = time.Duration(req.RequestTimeout * int64(time.Millisecond))
-
-	defer func() {
-		stub.cfgErrC <- retErr
-	}()
 
 	if handler := stub.handlers.Configure; handler == nil {
 		events = stub.events
